@@ -809,6 +809,15 @@ def real_atp(ml, x, left, right, ops):
     return f"{names.get(st, st)} {f(su)} {f(stop)} {f(add)} | {lst([to_int(s.order[0]) for s in p.phasepoints])}"
 
 
+def atp_missed(c, out):
+    """the new frame was appended, lies strictly outside [left, right], yet no success is reported"""
+    if out.startswith("err"):
+        return False
+    parts = out.split(" | ")[0].split()
+    ml, x, le, ri, ops = c
+    return parts[3] == "1" and (x < le or x > ri) and parts[1] != "1"
+
+
 def atp_bad(c, out):
     """success reported although the last frame of the path is not strictly outside [left, right]"""
     if out.startswith("err"):
@@ -832,6 +841,8 @@ def run(ctx):
                 "frame. Non-trivial = both propagations ran (status not KOB/err); distinct by the whole case.")
     have_model = ctx._driver_ok
     try:
+        # ---- corpus first: minimised witnesses of past findings must not fail on the current code
+        corpus_first(ctx)
         # ---- add_to_path itself
         ac = atp_cases(ctx.quick)
         code_a = [real_atp(*c) for c in ac]
@@ -839,27 +850,28 @@ def run(ctx):
             tok = lambda ml: "-" if ml is None else str(ml)  # noqa: E731
             outs = {v: ctx.driver([f"atp {v} {tok(ml)} {x} {le} {ri} {lst(ops)}" for (ml, x, le, ri, ops) in ac])
                     for v in ("s", "a", "r")}
-        mism_a = {"a": [], "r": []}
+        n_reg_atp = 0
         for k, c in enumerate(ac):
             ctx.count(1, branch="add_to_path")
             if code_a[k].split()[0] in ("left", "right", "maxlen"):
                 ctx.distinct(("atp", c))
             if have_model:
-                if outs["s"][k] != outs["a"][k]:
-                    ctx.disagree({"fn": "addToPath(shared) vs addToPathV asIs", "case": c}, outs["s"][k], outs["a"][k])
-                for v in ("a", "r"):
-                    if code_a[k] != outs[v][k]:
-                        mism_a[v].append((c, code_a[k], outs[v][k]))
+                if outs["s"][k] != outs["r"][k]:
+                    ctx.disagree({"fn": "addToPath(shared) vs addToPathV repaired", "case": c}, outs["s"][k], outs["r"][k])
+                if code_a[k] != outs["r"][k]:
+                    if code_a[k] == outs["a"][k]:
+                        n_reg_atp += 1          # the pre-f955162 behaviour: judged on shoot below
+                    ctx.disagree({"fn": "add_to_path", "variant": "repaired", "case": c}, code_a[k], outs["r"][k])
             # property-level statement about add_to_path that shoot relies on: success ⇒ the last frame of
             # the path lies strictly outside [left, right]
             if atp_bad(c, code_a[k]):
                 ctx.fail("C09:add_to_path:success-without-crossing", f"success reported although the last frame is inside",
                          {"atp": c, "code": code_a[k]})
-        if have_model and mism_a["a"] and mism_a["r"]:
-            v = "a" if len(mism_a["a"]) <= len(mism_a["r"]) else "r"
-            for (c, co, mo) in mism_a[v][:10]:
-                ctx.disagree({"fn": "add_to_path", "variant": v, "case": c}, co, mo)
-        ctx.extra["add_to_path_agrees_with"] = [v for v in ("a", "r") if have_model and not mism_a[v]]
+            # ... and (since f955162) a frame that was appended and lies strictly outside is a success
+            if atp_missed(c, code_a[k]):
+                ctx.fail(SIG_LEN_EQ, "add_to_path appended a frame strictly outside [left, right] and reports no success "
+                         "(length == maxlen overrides the crossing)", {"atp": c, "code": code_a[k]})
+        ctx.hit("add_to_path:cases-agreeing-with-asIs-only", n_reg_atp)
 
         # ---- shoot
         cases = gen_cases(ctx)
@@ -889,18 +901,14 @@ def run(ctx):
                 ctx.sample({"case": c, "code": line})
         ctx.hit("threshold-statement-applies", nthr)
         if have_model:
-            agree = [v for v in ("a", "r") if not mism[v]]
-            ctx.extra["shoot_agrees_with_variant"] = {"a": "asIs", "r": "repaired"}.get(agree[0], "?") if agree else "neither"
+            # the code must be the `repaired` variant everywhere; agreement with `asIs` where the variants
+            # differ is the regression of /repo f955162 (the property predicate above reports it with its input)
             ctx.extra["shoot_cases_where_variants_differ"] = sum(1 for k in range(len(cases)) if mods["a"][k] != mods["r"][k])
-            if not agree:
-                v = "a" if len(mism["a"]) <= len(mism["r"]) else "r"
-                for k in mism[v][:20]:
-                    ctx.disagree({"fn": "shoot", "variant": v, "case": cases[k]}, real[k][0], mods[v][k])
-                ctx.extra["mismatches"] = {v: len(mism[v]) for v in mism}
-            if ctx.extra.get("add_to_path_agrees_with") and agree and \
-                    ({"a": "a", "r": "r"}[agree[0]] not in ctx.extra["add_to_path_agrees_with"]):
-                ctx.disagree({"fn": "variants"}, f"add_to_path agrees with {ctx.extra['add_to_path_agrees_with']}",
-                             f"shoot agrees with {agree}")
+            ctx.extra["shoot_mismatches_vs_repaired"] = len(mism["r"])
+            ctx.extra["shoot_mismatches_vs_asIs(historical)"] = len(mism["a"])
+            for k in mism["r"][:20]:
+                note = "agrees with the pre-f955162 variant asIs" if real[k][0] == mods["a"][k] else ""
+                ctx.disagree({"fn": "shoot", "variant": "repaired", "case": cases[k]}, real[k][0], mods["r"][k], note)
         # ---- run_md: the live path is replaced only on ACC (sample of the cases, start_cond from ens_set)
         step = 4 if ctx.quick else 2
         md_cases = []
@@ -911,8 +919,8 @@ def run(ctx):
                 md_cases.append(c2)
         md_real = [run_real_md(c) for c in md_cases]
         if have_model:
-            md_mod = {v: ctx.driver(["runmd" + model_line(c, v)[5:] for c in md_cases]) for v in ("a", "r")}
-            vv = agree[0] if agree else "a"
+            vv = "r"
+            md_mod = {vv: ctx.driver(["runmd" + model_line(c, vv)[5:] for c in md_cases])}
         for k, c in enumerate(md_cases):
             line, info = md_real[k]
             ctx.count(1, branch="run_md:" + (line.split()[1] if line.startswith("ok") else line))
@@ -952,6 +960,27 @@ def run(ctx):
         cleanup()
 
 
+def corpus_first(ctx):
+    import json
+    from common import CORPUS
+    d = CORPUS / "C09"
+    for f in sorted(d.glob("*.json")) if d.is_dir() else []:
+        obj = json.loads(f.read_text())
+        r = obj.get("replay", {})
+        ctx.count(1, branch="corpus")
+        if "case" in r and r.get("via") != "run_md":
+            line, info = run_real(r["case"])
+            evaluate(ctx, r["case"], line, info)
+        elif "wfcase" in r:
+            res = run_real_wf(r["wfcase"])
+            for sig, what in wf_judge(r["wfcase"], res):
+                ctx.fail(sig, what, {"wfcase": r["wfcase"], "code": res["line"], "corpus": f.name})
+        elif "atp" in r:
+            got = real_atp(*r["atp"])
+            if atp_bad(r["atp"], got) or atp_missed(r["atp"], got):
+                ctx.fail(obj.get("signature", "C09:add_to_path"), "corpus case fails", {"atp": r["atp"], "code": got})
+
+
 def replay(ctx, obj):
     """re-run one recorded failing input on the current implementation; 1 if it still fails"""
     r = obj.get("replay", {})
@@ -959,7 +988,7 @@ def replay(ctx, obj):
         if "atp" in r:
             got = real_atp(*r["atp"])
             print("code:", got, "recorded:", r.get("code"))
-            return 1 if atp_bad(r["atp"], got) else 0
+            return 1 if (atp_bad(r["atp"], got) or atp_missed(r["atp"], got)) else 0
         if "wfcase" in r:
             res = run_real_wf(r["wfcase"])
             bad = wf_judge(r["wfcase"], res)
